@@ -229,11 +229,16 @@ func (s *scanner) scanner(store *stor.Stor) {
 		s.cond.Signal()
 	}
 	s.stop()
-	s.cond.Signal()
 }
 
+// stop sets done and wakes getUpTo.
+// done must be set while holding the lock, otherwise getUpTo can test it,
+// then miss the wakeup (sent before it started waiting) and wait forever.
 func (s *scanner) stop() {
+	s.lock.Lock()
 	atomic.StoreUint32(&s.done, 1)
+	s.lock.Unlock()
+	s.cond.Broadcast()
 }
 
 func (s *scanner) close() {
